@@ -72,6 +72,31 @@ def check(prog, run):
                 elif n.value.id in f.params and n.value.id not in ("self",) and f.module.name == PR:
                     run.report(r, "%s:%s:writes-argument.%s.%s" % (mod.name, f.qualname, n.value.id, n.attr), f.where(n),
                                "printing mutates its argument %s.%s" % (n.value.id, n.attr))
+        # a local bound to an attribute/subscript of something else is an alias of that object: in-place updates of it
+        # (+=, append, extend, sort, ...) write into the schema / AST nodes being printed
+        if f.module.name == PR:
+            alias = {}
+            for n in own_nodes(f.node):
+                if isinstance(n, ast.Assign) and len(n.targets) == 1 and isinstance(n.targets[0], ast.Name):
+                    vals = [n.value]
+                    if isinstance(n.value, ast.IfExp):
+                        vals = [n.value.body, n.value.orelse]
+                    for v in vals:
+                        if isinstance(v, (ast.Attribute, ast.Subscript)) and not ast.unparse(v).startswith("self."):
+                            alias.setdefault(n.targets[0].id, []).append(v)
+            for n in own_nodes(f.node):
+                tgt = None
+                if isinstance(n, ast.AugAssign) and isinstance(n.target, ast.Name) and n.target.id in alias:
+                    tgt, how = n.target.id, "augmented assignment"
+                elif isinstance(n, ast.Call) and isinstance(n.func, ast.Attribute) and isinstance(n.func.value, ast.Name) and n.func.value.id in alias \
+                        and n.func.attr in ("append", "extend", "insert", "sort", "reverse", "pop", "remove", "clear", "update", "setdefault"):
+                    tgt, how = n.func.value.id, ".%s()" % n.func.attr
+                elif isinstance(n, ast.Subscript) and isinstance(n.ctx, (ast.Store, ast.Del)) and isinstance(n.value, ast.Name) and n.value.id in alias:
+                    tgt, how = n.value.id, "item assignment"
+                if tgt:
+                    run.report(r, "%s:%s:mutates-alias(%s)" % (mod.name, f.qualname, tgt), f.where(n),
+                               "`%s` updates `%s` in place, and `%s` may be the very list `%s` of the object being printed: every call "
+                               "changes the schema's nodes, so repeated serialisation gives different text" % (norm_stmt(n), tgt, tgt, ast.unparse(alias[tgt][0])))
         a = f.node.args
         for d in list(a.defaults) + [x for x in a.kw_defaults if x is not None]:
             if isinstance(d, (ast.Dict, ast.List, ast.Set)):
